@@ -119,6 +119,14 @@ impl<'a> Dispatcher<'a, '_> {
     }
 }
 
+#[cfg(feature = "verif-hooks")]
+impl Dispatcher<'_, '_> {
+    /// Executed shape and number of thread-local systems (verification hook).
+    pub fn verif_shape(&self) -> (Vec<Vec<usize>>, usize) {
+        (self.inner.verif_shape(), self.thread_local.len())
+    }
+}
+
 impl RunNow<'_> for Dispatcher<'_, '_> {
     fn run_now(&mut self, world: &World) {
         self.dispatch(world);
